@@ -98,7 +98,7 @@ PROPS = {
         assumptions=["grammars the validator rejects are counted, not judged (C06 owns acceptance)"],
     ),
     "C09": dict(
-        runs=BOTH_CONFIGS("c09"),
+        runs=BOTH_CONFIGS("c09", timeout_is_violation="reading, validating and optimizing a text of at most 4 KiB returns in bounded time"),
         rule=("texts <= 4 KiB: (i) char- and token-level mutants (truncate, delete/insert/replace chars, splice tokens such as PEEK[, {0}, "
               "\\u{110000}, ^, #t =, unbalanced delimiters, out-of-range numbers up to 2^70 in PEEK[..], duplicated/deleted segments) of every "
               ".pest/.grammar file in the repository; (ii) the same mutants of printed generator grammars (canonical and fuzzed spelling); "
